@@ -94,6 +94,44 @@ pub fn cell_clip(
     cell.clip_by_plane(half_space, generators, &grid.0)
 }
 
+/// For every vertex of `cell`: the decision of the floating point filter for clipping by
+/// `half_space` (-1, 0 = undecided, 1; exactly the call `clip_by_plane` makes) and the decision
+/// of the exact predicate on the snapped generators (-1, 0, 1; evaluated for every vertex, also
+/// where `clip_by_plane` would trust the filter). Does not modify the cell.
+pub fn clip_decisions(
+    cell: &ConvexCell<WithoutFaces>,
+    half_space: &HalfSpace,
+    generators: &[Generator],
+    grid: &Grid,
+) -> Vec<(f64, f64)> {
+    let boundary = &grid.0;
+    cell.vertices
+        .iter()
+        .map(|vertex| {
+            let snap_error = vertex.snap_error
+                + half_space.snap_error(vertex.loc, cell.loc, boundary.grid_spacing);
+            let filter =
+                half_space.clip_with_error_factor(vertex.loc, vertex.error_factor, snap_error);
+            let a = boundary.iloc(cell.loc);
+            let right_iloc = |hs: &HalfSpace| {
+                let mut right = boundary.iloc(hs.right_loc(cell.idx, generators));
+                if hs.right_idx.is_none() && right == a {
+                    let n = hs.normal();
+                    right[0] -= n.x as i64;
+                    right[1] -= n.y as i64;
+                    right[2] -= n.z as i64;
+                }
+                right
+            };
+            let b = right_iloc(&cell.clipping_planes[vertex.dual[0]]);
+            let c = right_iloc(&cell.clipping_planes[vertex.dual[1]]);
+            let d = right_iloc(&cell.clipping_planes[vertex.dual[2]]);
+            let v = boundary.iloc(half_space.right_loc(cell.idx, generators));
+            (filter, in_sphere_test_exact(&a, &b, &c, &d, &v))
+        })
+        .collect()
+}
+
 /// Wraps `ConvexCell::build` (with the same neighbour iterators the tessellation uses).
 pub fn cell_build(
     idx: usize,
